@@ -30,7 +30,7 @@ var nameStyles = map[string][]string{
 	"plain":   {"a", "b", "c", "d", "e1", "f2"},
 	"sqlwild": {"a", "ab", "a_", "a%", "a b", "abc", "_", "%"},
 	"unicode": {"é", "日本", "ü x", "a", "ñandú", "b"},
-	"dots":    {"x.gz", "y.age", "z.zst", "w.pgp", ".h", "v.tar.lz4", "u.br", "t.bz2", "a.b", "t.", "s.."},
+	"dots":    {"x.gz", "y.age", "z.zst", "w.pgp", ".h", "v.tar.lz4", "u.br", "t.bz2", "a.b", "t.", "s..", "..."},
 	"long":    {strings.Repeat("L", 120), strings.Repeat("m", 101) + ".txt", "a", "b"},
 	"quotes":  {"it's", `q"q`, "a\\b", "a:b", "c;d", "e"},
 	"prefix":  {"a", "aa", "aaa", "a.a", "a-a", "b"},
